@@ -27,6 +27,7 @@ import (
 	"encoding/json"
 	"encoding/pem"
 	"fmt"
+	"net/http/httptest"
 	"math/big"
 	"os"
 	"sort"
@@ -216,6 +217,9 @@ func (k *c02Case) add(c *x509.Certificate) int {
 	if len(c.SubjectKeyId) > 0 {
 		a.ski = c02Intern(k.kids, string(c.SubjectKeyId))
 	}
+	if t, ok := c02NotAfterDER(c.Raw); ok {
+		a.notAfter = t
+	}
 	for _, e := range c.ExtKeyUsage {
 		a.ekus = append(a.ekus, int(e))
 	}
@@ -232,6 +236,73 @@ func (k *c02Case) add(c *x509.Certificate) int {
 	}
 	k.abs = append(k.abs, a)
 	return i
+}
+
+// c02NotAfterDER reads the certificate's notAfter straight from the DER, by RFC 5280 §4.1.2.5: UTCTime YYMMDDHHMMSSZ with
+// YY >= 50 meaning 19YY and YY < 50 meaning 20YY, GeneralizedTime YYYYMMDDHHMMSSZ.  Independent of the fork's decoder, so an
+// expectation about expiry and the NotAfter window does not inherit a mistake of the decoder.
+func c02NotAfterDER(der []byte) (time.Time, bool) {
+	outer, rest, ok := c01Read(der)
+	if !ok || len(rest) != 0 {
+		return time.Time{}, false
+	}
+	parts, ok := c01Children(outer.val)
+	if !ok || len(parts) != 3 {
+		return time.Time{}, false
+	}
+	fields, ok := c01Children(parts[0].val)
+	at := 3 // validity, after serialNumber, signature, issuer
+	if ok && len(fields) > 0 && fields[0].tag == 0xa0 {
+		at = 4
+	}
+	if !ok || len(fields) <= at {
+		return time.Time{}, false
+	}
+	v, ok := c01Children(fields[at].val)
+	if !ok || len(v) != 2 {
+		return time.Time{}, false
+	}
+	num := func(b []byte) (int, bool) {
+		n := 0
+		for _, c := range b {
+			if c < '0' || c > '9' {
+				return 0, false
+			}
+			n = n*10 + int(c-'0')
+		}
+		return n, true
+	}
+	b := v[1].val
+	year := 0
+	switch {
+	case v[1].tag == 0x17 && len(b) == 13 && b[12] == 'Z':
+		y, ok := num(b[:2])
+		if !ok {
+			return time.Time{}, false
+		}
+		year = 2000 + y
+		if y >= 50 {
+			year = 1900 + y
+		}
+		b = b[2:12]
+	case v[1].tag == 0x18 && len(b) == 15 && b[14] == 'Z':
+		y, ok := num(b[:4])
+		if !ok {
+			return time.Time{}, false
+		}
+		year, b = y, b[4:14]
+	default:
+		return time.Time{}, false
+	}
+	var f [5]int
+	for i := range f {
+		n, ok := num(b[2*i : 2*i+2])
+		if !ok {
+			return time.Time{}, false
+		}
+		f[i] = n
+	}
+	return time.Date(year, time.Month(f[0]), f[1], f[2], f[3], f[4], 0, time.UTC), true
 }
 
 func c02NewCase(pool []*vCert, chain [][]byte) *c02Case {
@@ -763,6 +834,9 @@ func (e *c02Env) eval(k *c02Case, labels []string, o c02Opts, endpoint int) bool
 	return err == nil
 }
 
+var c02ContentTypes = []string{"", "application/json", "application/x-www-form-urlencoded", "text/plain", "application/json; charset=utf-8",
+	"application/x-www-form-urlencoded; charset=UTF-8", "application/octet-stream", "multipart/form-data; boundary=x"}
+
 // evalHTTP posts the chain to the real add-chain / add-pre-chain handler and compares the status with `want`.
 func (e *c02Env) evalHTTP(k *c02Case, labels []string, o c02Opts, endpoint int, want bool) {
 	fl := &verifkit.FuncLog{QueueLeafF: func(req *trillian.QueueLeafRequest) (*trillian.QueueLeafResponse, error) {
@@ -779,10 +853,22 @@ func (e *c02Env) evalHTTP(k *c02Case, labels []string, o c02Opts, endpoint int, 
 	if endpoint == 2 {
 		ep = "add-pre-chain"
 	}
+	// admission depends on chain, roots and options only — not on the Content-Type the client's HTTP library happens to send
+	// (curl -d sends application/x-www-form-urlencoded): the same body under each of them in turn
+	ctype := c02ContentTypes[e.nHTTP%len(c02ContentTypes)]
 	status, rbody := 0, ""
-	p := verifkit.Guard(func() { w := vServe(li, ep, "POST", nil, string(body)); status, rbody = w.Code, w.Body.String() })
-	key := c02Key(k, labels, o, endpoint) + " http"
+	p := verifkit.Guard(func() {
+		req := httptest.NewRequest("POST", "http://example.com/test/ct/v1/"+ep, strings.NewReader(string(body)))
+		if ctype != "" {
+			req.Header.Set("Content-Type", ctype)
+		}
+		w := httptest.NewRecorder()
+		li.Handlers("test")["/test/ct/v1/"+ep].ServeHTTP(w, req)
+		status, rbody = w.Code, w.Body.String()
+	})
+	key := c02Key(k, labels, o, endpoint) + fmt.Sprintf(" http Content-Type=%q", ctype)
 	e.nHTTP++
+	e.out.Count("mode:http-content-type-" + ctype)
 	switch {
 	case p != "":
 		e.out.Fail(key, "panic: "+p)
@@ -1243,6 +1329,7 @@ func TestVerifC02(t *testing.T) {
 	c02ConfigRejectExt(e)
 	c02ConfigAnyEKU(e)
 	c02WallClock(e)
+	c02TimeEdges(e)
 	c02Incomplete(e)
 	c02PoisonFixed(e)
 	c02Fixed(e)
@@ -1481,6 +1568,36 @@ func c02WallClock(e *c02Env) {
 		}
 	}
 }
+
+// c02TimeEdges: leaves whose NotAfter sits at the ends of what UTCTime can say (RFC 5280: 1950-01-01T00:00:00Z through
+// 2049-12-31T23:59:59Z) and just beyond (GeneralizedTime), under expiry and NotAfter-window filters whose clock and bounds are
+// decades away from the leaf's date — what is expected follows from the date the certificate was issued with.
+func c02TimeEdges(e *c02Env) {
+	keys := vKeys()
+	root := vIssue(vSpec{cn: "edge root", key: keys[2], isCA: true, keyUsage: vCAUsage})
+	d := func(y int, m time.Month, day, hh, mm, ss int) time.Time { return time.Date(y, m, day, hh, mm, ss, 0, time.UTC) }
+	y2000, y2024, y2100, y1960 := d(2000, 1, 1, 0, 0, 0), d(2024, 6, 1, 0, 0, 0), d(2100, 1, 1, 0, 0, 0), d(1960, 1, 1, 0, 0, 0)
+	for i, na := range []time.Time{d(1950, 1, 1, 0, 0, 0), d(1950, 1, 1, 0, 0, 1), d(1949, 12, 31, 23, 59, 59), d(1950, 12, 31, 23, 59, 59), d(1969, 1, 1, 0, 0, 0),
+		d(2049, 12, 31, 23, 59, 59), d(2050, 1, 1, 0, 0, 0), d(2050, 1, 1, 0, 0, 1), d(2000, 1, 1, 0, 0, 0), d(2049, 1, 1, 0, 0, 0)} {
+		leaf := vIssue(vSpec{cn: fmt.Sprintf("edge leaf %d NotAfter %s", i, na.Format(time.RFC3339)), key: keys[11], issuer: root, keyUsage: stdx509.KeyUsageDigitalSignature,
+			notBefore: na.AddDate(-1, 0, 0), notAfter: na})
+		k := c02NewCase([]*vCert{root}, [][]byte{leaf.der, root.der})
+		if got := k.abs[k.chain[0]].notAfter; !got.Equal(na) {
+			e.out.Fail("time-edge "+leaf.label, fmt.Sprintf("the harness reads NotAfter %v from a certificate issued with %v", got, na))
+		}
+		if !leaf.c.NotAfter.Equal(na) {
+			e.out.Count("class:decoder-misreads-notafter")
+		}
+		for _, o := range []c02Opts{{now: y2024, rejExp: true}, {now: y2024, rejUnexp: true}, {now: y1960, rejExp: true}, {now: y1960, rejUnexp: true},
+			{now: y2024, start: &y2000}, {now: y2024, limit: &y2000}, {now: y2024, start: &y2000, limit: &y2100}, {now: y2024, start: &y1960, limit: &y2000},
+			{now: y2024, limit: &y2100}, {now: y2024, start: &y1960}} {
+			e.eval(k, []string{leaf.label, root.label}, o, r3(i))
+			e.out.Count("mode:notafter-at-utctime-edges")
+		}
+	}
+}
+
+func r3(i int) int { return []int{0, 1, 0}[i%3] }
 
 // c02ConfigRejectExt: reject_extensions lists of 2–4 OIDs with the same number of arcs, built through the server's
 // configuration path, against a leaf that carries each listed OID in turn (first, middle, last position of the list).
